@@ -172,6 +172,25 @@ func checkC05(c *Ctx) {
 		}
 		res := c05Marshal(c, an, t, det[i], aln[i], recvAllocs[i], hidx, hdrMarshal)
 		mu.Lock()
+		for k := range res {
+			// LEN left open by the numeric engine (an encoder that grows its buffer by append in a loop
+			// relates two sums): decided by the symbolic-sum engine as an identity of sizes; the other rules
+			// are then re-evaluated with that identity
+			if res[k].rule == "C05-LEN" && res[k].st != core.Discharged && det[i] && t.marshalSize != nil {
+				if ok, why := c05LenBySums(c, an, t); ok {
+					mu.Unlock()
+					res2 := c05Marshal(c, an, t, det[i], aln[i], recvAllocs[i], hidx, hdrMarshal, why)
+					mu.Lock()
+					for k2 := range res2 {
+						if res2[k2].rule == "C05-LEN" && res2[k2].st == core.Discharged {
+							res2[k2].detail = "not entailed by the numeric engine; " + why
+						}
+					}
+					res = res2
+				}
+				break
+			}
+		}
 		for _, o := range res {
 			switch o.st {
 			case core.Discharged:
@@ -250,6 +269,33 @@ func c05LenHolds(c *Ctx, an *effects.Analysis, t c05Type) (bool, string) {
 		return false, "C05-LEN: no obligation generated"
 	}
 	return true, fmt.Sprintf("C05-DET, C05-ALN and %d C05-LEN obligation(s) of %s re-established", n, t.name)
+}
+
+// c05LenBySums: len(T.Marshal()) and T.MarshalSize() have the same symbolic normal form (engine E3), at the
+// nil-error returns and for the unmodified receiver (C05-DET).
+var c05SumMu sync.Mutex
+
+func c05LenBySums(c *Ctx, an *effects.Analysis, t c05Type) (bool, string) {
+	c05SumMu.Lock()
+	defer c05SumMu.Unlock()
+	var ok bool
+	var why string
+	if msg := guarded(func() {
+		se := newSumEngine(c, an)
+		res := se.EvalRoot(t.marshal)
+		got, good := res.ResultLin(0)
+		if !good || res.Mutates != "" || res.NRetNil == 0 {
+			return
+		}
+		want, good := se.SizeOf(t.marshalSize)
+		if !good || !got.Equal(want) {
+			return
+		}
+		ok, why = true, "symbolic sums (E3): len(result) = MarshalSize() = "+got.Key()
+	}); msg != "" {
+		return false, ""
+	}
+	return ok, why
 }
 
 // c05SizeFns: functions reachable from a MarshalSize method or wireSize; under the size-domain
@@ -417,7 +463,7 @@ type hdrSource struct {
 	why   string
 }
 
-func c05Marshal(c *Ctx, an *effects.Analysis, t c05Type, det, aln bool, recvAllocs []*ssa.Alloc, hidx map[string]int, hdrMarshal *ssa.Function) []c05Obl {
+func c05Marshal(c *Ctx, an *effects.Analysis, t c05Type, det, aln bool, recvAllocs []*ssa.Alloc, hidx map[string]int, hdrMarshal *ssa.Function, lenProved ...string) []c05Obl {
 	p := c.Prog
 	var out []c05Obl
 	add := func(rule, key string, pos token.Pos, st core.Status, detail string) {
@@ -577,6 +623,11 @@ func c05Marshal(c *Ctx, an *effects.Analysis, t c05Type, det, aln bool, recvAllo
 			continue
 		}
 		L := e.LenExprOf(rr.St, rr.Ret.Results[0])
+		if len(lenProved) > 0 && det {
+			// len(out) = MarshalSize() was established as an identity of symbolic sizes (engine E3): the
+			// remaining rules (HDR, ACC) may use it
+			rr.St.AssumeEq(L.Sub(num.Var(msGhost)))
+		}
 		// the accessors are re-evaluated in a slimmed copy of the return state: only facts about
 		// the receiver, the ghosts and len(out) matter
 		keepAtoms := map[num.Atom]bool{msGhost: true, wGhost: true, hLen: true, hType: true, hCount: true, hPad: true}
